@@ -210,6 +210,40 @@ pub open spec fn frame_path(o: &Pager, n: &Pager, path: Seq<PathEntry>) -> bool 
     forall|x: u64| live(o, x) && #[trigger] pg(n, x) != pg(o, x) ==> exists|k: int| 0 <= k < path.len() && path[k].page.0 == x
 }
 pub open spec fn live_kept(o: &Pager, n: &Pager) -> bool { forall|x: u64| live(o, x) ==> #[trigger] live(n, x) }
+/// no allocated page changed
+pub proof fn lemma_frame_none(o: &Pager, n: &Pager, path: Seq<PathEntry>)
+    requires forall|x: u64| live(o, x) ==> #[trigger] pg(n, x) == pg(o, x),
+    ensures frame_path(o, n, path),
+{ }
+/// only the last recorded page changed
+pub proof fn lemma_frame_last(o: &Pager, n: &Pager, path: Seq<PathEntry>)
+    requires path.len() > 0, forall|x: u64| live(o, x) && x != path.last().page.0 ==> #[trigger] pg(n, x) == pg(o, x),
+    ensures frame_path(o, n, path),
+{
+    assert forall|x: u64| live(o, x) && #[trigger] pg(n, x) != pg(o, x) implies exists|k: int| 0 <= k < path.len() && path[k].page.0 == x by {
+        assert(path[path.len() - 1].page.0 == x);
+    }
+}
+/// the last recorded page changed first (o -> m), then pages of the rest of the record (m -> n)
+pub proof fn lemma_frame_compose(o: &Pager, m: &Pager, n: &Pager, path: Seq<PathEntry>)
+    requires path.len() > 0, live_kept(o, m), live_kept(m, n), frame_path(m, n, path.drop_last()),
+        forall|x: u64| live(o, x) && x != path.last().page.0 ==> #[trigger] pg(m, x) == pg(o, x),
+    ensures frame_path(o, n, path), live_kept(o, n),
+{
+    assert forall|x: u64| live(o, x) && #[trigger] pg(n, x) != pg(o, x) implies exists|k: int| 0 <= k < path.len() && path[k].page.0 == x by {
+        if pg(m, x) != pg(o, x) { assert(path[path.len() - 1].page.0 == x); }
+        else {
+            assert(live(m, x) && pg(n, x) != pg(m, x));
+            let k = choose|k: int| 0 <= k < path.drop_last().len() && path.drop_last()[k].page.0 == x;
+            assert(path[k].page.0 == x);
+        }
+    }
+}
+/// what a frame says about one page
+pub proof fn lemma_frame_elim(o: &Pager, n: &Pager, path: Seq<PathEntry>, x: u64)
+    requires frame_path(o, n, path), live(o, x), pg(n, x) != pg(o, x),
+    ensures exists|k: int| 0 <= k < path.len() && path[k].page.0 == x,
+{ }
 
 impl BTree {
 // C26.tree.cursor_lower_bound — the cursor a lookup/scan starts from is a faithful copy of a well-formed
@@ -226,7 +260,10 @@ impl BTree {
 //@|     // WHICH leaf and slot: the leaf the descent by internal_child_for_key ends in and the lower-bound slot of
 //@|     // the key there, whenever that slot holds an entry (otherwise the walk to the right above applies)
 //@|     r is Ok ==> exists|l0: u64, h: nat| #[trigger] reaches(pager, self.root.0, key@, l0, h) && leaf_wf(pg(pager, l0))
-//@|         && (lb_pos(leaf_keys(pg(pager, l0)), key@) < pg_count(pg(pager, l0)) ==> r->Ok_0.leaf.0 == l0 && r->Ok_0.slot == lb_pos(leaf_keys(pg(pager, l0)), key@)),
+//@|         && (lb_pos(leaf_keys(pg(pager, l0)), key@) < pg_count(pg(pager, l0)) ==> r->Ok_0.leaf.0 == l0 && r->Ok_0.slot == lb_pos(leaf_keys(pg(pager, l0)), key@))
+//@|         // every key of that leaf is below the target: the cursor starts at the first entry of the right sibling when that one has entries
+//@|         && (lb_pos(leaf_keys(pg(pager, l0)), key@) >= pg_count(pg(pager, l0)) && pg_count(pg(pager, l0)) > 0 && sib(pg(pager, l0)) != 0 && pg_count(pg(pager, sib(pg(pager, l0)))) > 0
+//@|                 ==> r->Ok_0.leaf.0 == sib(pg(pager, l0)) && r->Ok_0.slot == 0),
 //@proof before 1 "let mut cur = self.root;" raw
 //@| let ghost mut depth: nat = 0;
 //@loop 1
@@ -255,8 +292,10 @@ impl BTree {
 //@| invariant tree_pages_ok(pager), leaf_buf@ == pg(pager, leaf_id.0), pg_kind_ok(leaf_buf@), leaf_buf@[4] == 0, leaf_wf(leaf_buf@), keys_sorted(leaf_cells(leaf_buf@)),
 //@|     leaf_id.0 != 0, slot <= pg_count(leaf_buf@),
 //@|     (leaf_id.0 == l0 && slot == slot0) || slot0 as int >= pg_count(pg(pager, l0)),
+//@|     (leaf_id.0 == l0 && slot == slot0) || (pg_count(pg(pager, l0)) > 0 ==> leaf_id.0 == sib(pg(pager, l0)) && slot == 0) || (pg_count(pg(pager, l0)) > 0 && pg_count(pg(pager, sib(pg(pager, l0)))) == 0),
 //@| ensures slot < pg_count(leaf_buf@) || from_le64(leaf_buf@.subrange(16, 24)) == 0,
 //@|     (leaf_id.0 == l0 && slot == slot0) || slot0 as int >= pg_count(pg(pager, l0)),
+//@|     (leaf_id.0 == l0 && slot == slot0) || (pg_count(pg(pager, l0)) > 0 ==> leaf_id.0 == sib(pg(pager, l0)) && slot == 0) || (pg_count(pg(pager, l0)) > 0 && pg_count(pg(pager, sib(pg(pager, l0)))) == 0),
 //@end
 }
 
@@ -502,7 +541,7 @@ pub open spec fn sib(b: Seq<u8>) -> u64 { from_le64(b.subrange(16, 24)) }
 /// between `l` and l's old right sibling, `sep` is the first key of `r`, which was a free page, and no other
 /// allocated page changed.
 pub open spec fn leaf_split_ok(o: &Pager, n: &Pager, l: u64, r: u64, i: int, key: Seq<u8>, payload: u64, sep: Seq<u8>) -> bool {
-    leaf_wf(pg(o, l)) && 0 <= i <= pg_count(pg(o, l)) && live(o, l) && !live(o, r)
+    leaf_wf(pg(o, l)) && 0 <= i <= pg_count(pg(o, l)) && live(o, l) && !live(o, r) && r != 0
     && (forall|j: int| 0 <= j < i ==> lex_lt(#[trigger] leaf_cells(pg(o, l))[j].0, key))
     && (forall|j: int| i <= j < pg_count(pg(o, l)) ==> lex_le(key, #[trigger] leaf_cells(pg(o, l))[j].0))
     && leaf_wf(pg(n, l)) && leaf_wf(pg(n, r))
@@ -605,6 +644,7 @@ pub open spec fn ranked(p: &Pager, rank: spec_fn(u64) -> nat) -> bool {
 }
 /// what insert_into_parent needs to know about the recorded descent: every entry names an allocated,
 /// well-formed internal page and a child position inside it, and no page occurs twice
+#[verifier::opaque]
 pub open spec fn path_ok(p: &Pager, path: Seq<PathEntry>) -> bool {
     (forall|k: int| 0 <= k < path.len() ==> live(p, (#[trigger] path[k]).page.0) && internal_wf(pg(p, path[k].page.0)) && path[k].child_pos <= pg_count(pg(p, path[k].page.0)))
     && (forall|j: int, k: int| 0 <= j < k < path.len() ==> (#[trigger] path[j]).page.0 != (#[trigger] path[k]).page.0)
@@ -615,11 +655,48 @@ pub open spec fn path_ok(p: &Pager, path: Seq<PathEntry>) -> bool {
 pub open spec fn path_leads_to(p: &Pager, path: Seq<PathEntry>, root: u64, left: u64) -> bool {
     if path.len() == 0 { left == root } else { path[0].page.0 == root && int_child(pg(p, path.last().page.0), path.last().child_pos as int) == left }
 }
+pub proof fn lemma_path_ok_empty(p: &Pager)
+    ensures path_ok(p, Seq::<PathEntry>::empty()),
+{ reveal(path_ok); }
+/// what path_ok says about one entry
+pub proof fn lemma_path_ok_at(p: &Pager, path: Seq<PathEntry>, k: int)
+    requires path_ok(p, path), 0 <= k < path.len(),
+    ensures live(p, path[k].page.0), internal_wf(pg(p, path[k].page.0)), path[k].child_pos <= pg_count(pg(p, path[k].page.0)),
+        pg_kind_ok(pg(p, path[k].page.0)) && pg(p, path[k].page.0)[4] == 1,
+        forall|j: int| 0 <= j < path.len() && j != k ==> (#[trigger] path[j]).page.0 != path[k].page.0,
+        k < path.len() - 1 ==> int_child(pg(p, path[k].page.0), path[k].child_pos as int) == path[k + 1].page.0,
+{ reveal(path_ok); }
+pub proof fn lemma_path_ok_drop(p: &Pager, path: Seq<PathEntry>)
+    requires path_ok(p, path), path.len() > 0,
+    ensures path_ok(p, path.drop_last()),
+{
+    reveal(path_ok);
+    let d = path.drop_last();
+    assert forall|k: int| 0 <= k < d.len() implies live(p, (#[trigger] d[k]).page.0) && internal_wf(pg(p, d[k].page.0)) && d[k].child_pos <= pg_count(pg(p, d[k].page.0)) by { assert(d[k] == path[k]); }
+    assert forall|j: int, k: int| 0 <= j < k < d.len() implies (#[trigger] d[j]).page.0 != (#[trigger] d[k]).page.0 by { assert(d[j] == path[j] && d[k] == path[k]); }
+    assert forall|k: int| 0 <= k < d.len() - 1 implies int_child(pg(p, (#[trigger] d[k]).page.0), d[k].child_pos as int) == d[k + 1].page.0 by { assert(d[k] == path[k] && d[k + 1] == path[k + 1]); }
+}
+pub proof fn lemma_path_ok_push(p: &Pager, path: Seq<PathEntry>, e: PathEntry)
+    requires path_ok(p, path), live(p, e.page.0), internal_wf(pg(p, e.page.0)), e.child_pos <= pg_count(pg(p, e.page.0)),
+        forall|k: int| 0 <= k < path.len() ==> (#[trigger] path[k]).page.0 != e.page.0,
+        path.len() > 0 ==> int_child(pg(p, path.last().page.0), path.last().child_pos as int) == e.page.0,
+    ensures path_ok(p, path.push(e)),
+{
+    reveal(path_ok);
+    let q = path.push(e);
+    assert forall|k: int| 0 <= k < q.len() implies live(p, (#[trigger] q[k]).page.0) && internal_wf(pg(p, q[k].page.0)) && q[k].child_pos <= pg_count(pg(p, q[k].page.0)) by { if k < path.len() { assert(q[k] == path[k]); } }
+    assert forall|j: int, k: int| 0 <= j < k < q.len() implies (#[trigger] q[j]).page.0 != (#[trigger] q[k]).page.0 by { assert(q[j] == path[j]); if k < path.len() { assert(q[k] == path[k]); } }
+    assert forall|k: int| 0 <= k < q.len() - 1 implies int_child(pg(p, (#[trigger] q[k]).page.0), q[k].child_pos as int) == q[k + 1].page.0 by {
+        assert(q[k] == path[k]);
+        if k + 1 < path.len() { assert(q[k + 1] == path[k + 1]); } else { assert(path[k] == path.last()); }
+    }
+}
 /// a recorded descent stays valid when none of its pages changes or is freed
 pub proof fn lemma_path_frame(o: &Pager, n: &Pager, path: Seq<PathEntry>)
     requires path_ok(o, path), forall|k: int| 0 <= k < path.len() ==> pg(n, (#[trigger] path[k]).page.0) == pg(o, path[k].page.0) && live(n, path[k].page.0),
     ensures path_ok(n, path),
 {
+    reveal(path_ok);
     assert forall|k: int| 0 <= k < path.len() - 1 implies int_child(pg(n, (#[trigger] path[k]).page.0), path[k].child_pos as int) == path[k + 1].page.0 by {
         assert(pg(n, path[k].page.0) == pg(o, path[k].page.0));
     }
@@ -627,7 +704,7 @@ pub proof fn lemma_path_frame(o: &Pager, n: &Pager, path: Seq<PathEntry>)
 /// C26.tree.insert.split_leaf (the abstract argument): two well-formed leaves holding the two parts of the old run
 /// with the new entry at its lower-bound position are a correct leaf split
 pub proof fn lemma_leaf_split(o: &Pager, n: &Pager, l: u64, rr: u64, pos: int, key: Seq<u8>, payload: u64, sep: Seq<u8>, mid: int)
-    requires leaf_wf(pg(o, l)), keys_sorted(leaf_cells(pg(o, l))), live(o, l), !live(o, rr), 0 <= pos <= pg_count(pg(o, l)), key.len() <= 0x7fff_ffff_ffff_ffff,
+    requires leaf_wf(pg(o, l)), keys_sorted(leaf_cells(pg(o, l))), live(o, l), !live(o, rr), rr != 0, 0 <= pos <= pg_count(pg(o, l)), key.len() <= 0x7fff_ffff_ffff_ffff,
         forall|j: int| 0 <= j < pos ==> lex_lt(#[trigger] leaf_cells(pg(o, l))[j].0, key),
         forall|j: int| pos <= j < pg_count(pg(o, l)) ==> lex_le(key, #[trigger] leaf_cells(pg(o, l))[j].0),
         0 <= mid < pg_count(pg(o, l)) + 1, leaf_wf(pg(n, l)), leaf_wf(pg(n, rr)),
@@ -713,6 +790,60 @@ pub proof fn lemma_same_key_lens(s: Seq<(Seq<u8>, u64)>, t: Seq<(Seq<u8>, u64)>)
         assert(s.last().0.len() == t.last().0.len()) by { assert(s[s.len() - 1].0.len() == t[s.len() - 1].0.len()); }
     }
 }
+/// at every recorded page the recorded child position is the one internal_child_for_key chooses for `key`
+#[verifier::opaque]
+pub open spec fn path_for_key(p: &Pager, path: Seq<PathEntry>, key: Seq<u8>) -> bool {
+    forall|k: int| 0 <= k < path.len() ==> is_lb(int_seps(pg(p, (#[trigger] path[k]).page.0)), key, path[k].child_pos as int)
+}
+pub proof fn lemma_path_for_key_empty(p: &Pager, key: Seq<u8>)
+    ensures path_for_key(p, Seq::<PathEntry>::empty(), key),
+{ reveal(path_for_key); }
+pub proof fn lemma_path_for_key_push(p: &Pager, path: Seq<PathEntry>, key: Seq<u8>, e: PathEntry)
+    requires path_for_key(p, path, key), is_lb(int_seps(pg(p, e.page.0)), key, e.child_pos as int),
+    ensures path_for_key(p, path.push(e), key),
+{
+    reveal(path_for_key);
+    assert forall|k: int| 0 <= k < path.push(e).len() implies is_lb(int_seps(pg(p, (#[trigger] path.push(e)[k]).page.0)), key, path.push(e)[k].child_pos as int) by {
+        if k < path.len() { assert(path.push(e)[k] == path[k]); }
+    }
+}
+/// C26.tree.insert.split_parent_room — what an insert that split leaf `l` (new right leaf `r`) did when the parent, the
+/// last page of the recorded descent `path`, had room for the separator: `l` and `r` hold the two parts of the old
+/// run with the new entry at its lower-bound position, `r` is chained in behind `l`, the parent got exactly the
+/// separator (first key of `r`) and `r` as the child right of `l`, and no other allocated page changed
+pub open spec fn split_insert_ok(o: &Pager, n: &Pager, path: Seq<PathEntry>, root: u64, l: u64, r: u64, pos: int, key: Seq<u8>, payload: u64) -> bool {
+    path.len() > 0 && path_ok(o, path) && path_for_key(o, path, key) && path_leads_to(o, path, root, l)
+    && leaf_wf(pg(o, l)) && keys_sorted(leaf_cells(pg(o, l))) && 0 <= pos <= pg_count(pg(o, l)) && live(o, l) && !live(o, r) && r != 0
+    && (forall|j: int| 0 <= j < pos ==> lex_lt(#[trigger] leaf_cells(pg(o, l))[j].0, key))
+    && (forall|j: int| pos <= j < pg_count(pg(o, l)) ==> lex_le(key, #[trigger] leaf_cells(pg(o, l))[j].0))
+    && leaf_wf(pg(n, l)) && leaf_wf(pg(n, r))
+    && leaf_cells(pg(n, l)) + leaf_cells(pg(n, r)) == leaf_cells(pg(o, l)).insert(pos, (key, payload))
+    && leaf_cells(pg(n, r)).len() >= 1 && sib(pg(n, l)) == r
+    && ({ let p = path.last().page.0; let cp = path.last().child_pos as int; let sep = leaf_cells(pg(n, r))[0].0;
+          internal_wf(pg(n, p)) && int_seps(pg(n, p)) == int_seps(pg(o, p)).insert(cp, sep)
+          && all_children(pg(n, p)) == all_children(pg(o, p)).insert(cp + 1, r)
+          && (forall|x: u64| live(o, x) && x != l && x != p ==> #[trigger] pg(n, x) == pg(o, x)) })
+}
+/// from the in-body obligation at the call (leaf_split_ok on the intermediate store `m`) and the callee's
+/// postcondition for a parent with room (parent_insert_ok from `m` to `n`) to the statement about `o` and `n`
+pub proof fn lemma_split_insert(o: &Pager, m: &Pager, n: &Pager, path: Seq<PathEntry>, root: u64, l: u64, r: u64, pos: int, key: Seq<u8>, payload: u64, sep: Seq<u8>)
+    requires path.len() > 0, path_ok(o, path), path_for_key(o, path, key), path_leads_to(o, path, root, l), keys_sorted(leaf_cells(pg(o, l))),
+        leaf_split_ok(o, m, l, r, pos, key, payload, sep),
+        parent_insert_ok(m, n, path.last().page.0, path.last().child_pos as int, sep, r),
+        pg_kind_ok(pg(o, l)) && pg(o, l)[4] == 0,
+    ensures split_insert_ok(o, n, path, root, l, r, pos, key, payload),
+{
+    let pe = path.last();
+    let p = pe.page.0;
+    assert(path[path.len() - 1] == pe);
+    lemma_path_ok_at(o, path, path.len() - 1);
+    assert(live(o, p) && internal_wf(pg(o, p)));
+    assert(p != l) by { assert(pg(o, p)[4] == 1); }
+    assert(p != r);
+    assert(pg(m, p) == pg(o, p));
+    assert(pg(n, l) == pg(m, l) && pg(n, r) == pg(m, r));
+}
+
 //@trusted v_keys_to_vec: `keys[a..b].to_vec()` clones the keys a..b in order (std; std panics unless a <= b <= len: precondition)
 #[verifier::external_body]
 pub fn v_keys_to_vec(keys: &Vec<Vec<u8>>, a: usize, b: usize) -> (r: Vec<Vec<u8>>)
@@ -759,7 +890,13 @@ impl BTree {
 //@prewrite "keys[mid + 1..].to_vec()" => "v_keys_to_vec(&keys, mid + 1, keys.len())"
 //@prewrite "children[..mid + 1].to_vec()" => "v_children_to_vec(&children, 0, mid + 1)"
 //@prewrite "children[mid + 1..].to_vec()" => "v_children_to_vec(&children, mid + 1, children.len())"
+//@preregex "(?m)^(\s*)self\.insert_into_parent\(pager, path, ([^()]*)\)\s*$" => "\1let ghost pager1 = *pager;\n\1let rec_r = self.insert_into_parent(pager, path, \2);\n\1proof { lemma_frame_compose(old(pager), &pager1, pager, old(path)@); }\n\1rec_r"
 //@preregex "(?s)(\w+)\s*\.into_iter\(\)\s*\.zip\((\w+)\.iter\(\)\.skip\(1\)\.copied\(\)\)\s*\.collect\(\)" => "v_zip_cells(\1, &\2)"
+//@proof before 1 "let parent_id = parent.page;"
+//@| let m0 = old(path)@.len() - 1;
+//@| assert(old(path)@[m0] == parent && path@ == old(path)@.drop_last());
+//@| lemma_path_ok_at(old(pager), old(path)@, m0);
+//@| lemma_path_ok_drop(old(pager), old(path)@);
 //@proof before 1 "pager.write_page(new_root, &buf)?;"
 //@| assert(int_seps(buf@) =~= seq![sep_key@]);
 //@| lemma_all_children(buf@);
@@ -828,13 +965,22 @@ impl BTree {
 //@|     lemma_internal_split(o, pager, pp, r2, child_pos as int, sep_key@, right_id.0, promote@, mid as int);
 //@|     assert(internal_split_ok(o, pager, pp, r2, child_pos as int, sep_key@, right_id.0, promote@));
 //@|     // the rest of the recorded descent is untouched by this split, and it went to the page just split
+//@|     assert forall|k: int| 0 <= k < path@.len() implies pg(pager, (#[trigger] path@[k]).page.0) == pg(o, path@[k].page.0) && live(pager, path@[k].page.0) by {
+//@|         assert(path@[k] == old(path)@[k]);
+//@|         lemma_path_ok_at(o, old(path)@, k);
+//@|     }
 //@|     lemma_path_frame(o, pager, path@);
 //@|     assert(live_kept(o, pager));
 //@|     assert(forall|x: u64| live(o, x) && x != pp ==> #[trigger] pg(pager, x) == pg(o, x));
 //@|     assert(path_leads_to(pager, path@, self.root.0, pp)) by {
 //@|         let m = path@.len() as int;
 //@|         assert(old(path)@[m] == parent);
-//@|         if m > 0 { assert(old(path)@[m - 1] == path@[m - 1]); assert(old(path)@[0] == path@[0]); }
+//@|         if m > 0 {
+//@|             assert(old(path)@[m - 1] == path@[m - 1]); assert(old(path)@[0] == path@[0]);
+//@|             lemma_path_ok_at(o, old(path)@, m - 1);
+//@|             assert(pg(pager, path@[m - 1].page.0) == pg(o, path@[m - 1].page.0));
+//@|             assert(path@.last() == path@[m - 1]);
+//@|         }
 //@|     }
 //@| }
 //@end
@@ -855,8 +1001,15 @@ impl BTree {
 //@| requires tree_pages_ok(old(pager)), key@.len() <= 0x7fff_ffff_ffff_ffff,
 //@|     // the pages reachable from the root form a tree (no page is its own descendant)
 //@|     exists|rank: spec_fn(u64) -> nat| ranked(old(pager), rank),
-//@| ensures r is Ok ==> (exists|l: u64| #[trigger] leaf_full(old(pager), l, key@))
-//@|         || (final(self).root == old(self).root && exists|l: u64, i: int, h: nat| #[trigger] inserted_at(old(pager), final(pager), l, i, key@, payload) && #[trigger] reaches(old(pager), old(self).root.0, key@, l, h)),
+//@| ensures r is Ok ==>
+//@|            // no split: one leaf changed, the one the descent reaches
+//@|            (final(self).root == old(self).root && exists|l: u64, i: int, h: nat| #[trigger] inserted_at(old(pager), final(pager), l, i, key@, payload) && #[trigger] reaches(old(pager), old(self).root.0, key@, l, h))
+//@|            // leaf split, the parent had room
+//@|         || (final(self).root == old(self).root && exists|path: Seq<PathEntry>, l: u64, rr: u64, pos: int| #[trigger] split_insert_ok(old(pager), final(pager), path, old(self).root.0, l, rr, pos, key@, payload))
+//@|            // leaf split and the parent was full as well (internal split, in-body obligations), or the root was a full leaf (new root)
+//@|         || (exists|p: u64, sp: Seq<u8>| #[trigger] internal_full(old(pager), p, sp))
+//@|            // the root was a full leaf: first split of the tree
+//@|         || (exists|rr: u64, pos: int| #[trigger] root_split_ok(old(pager), final(pager), old(self).root.0, final(self).root.0, rr, pos, key@, payload)),
 //@|     r is Err ==> (exists|l: u64| #[trigger] leaf_full(old(pager), l, key@)) || at_most_one_changed(old(pager), final(pager)),
 //@|     // C18.btree.frame (whatever the outcome): every allocated page whose content changed lies on the descent from this
 //@|     // tree's root for the key; everything else that was written had been free; nothing was freed
@@ -871,11 +1024,12 @@ impl BTree {
 //@proof before 1 "let mut cur = self.root;" raw
 //@| let ghost rank = choose|rank: spec_fn(u64) -> nat| ranked(old(pager), rank);
 //@| let ghost mut depth: nat = 0;
+//@| proof { lemma_path_for_key_empty(old(pager), key@); lemma_path_ok_empty(old(pager)); assert(path@ =~= Seq::<PathEntry>::empty()); }
 //@loop 1
 //@| invariant tree_pages_ok(old(pager)), forall|o: u64| #[trigger] pg(pager, o) == pg(old(pager), o), *pager == *old(pager),
 //@|     key@.len() <= 0x7fff_ffff_ffff_ffff, ranked(old(pager), rank), path_ok(old(pager), path@),
 //@|     forall|k: int| 0 <= k < path@.len() ==> rank((#[trigger] path@[k]).page.0) > rank(cur.0),
-//@|     path_leads_to(old(pager), path@, self.root.0, cur.0), *self == *old(self),
+//@|     path_leads_to(old(pager), path@, self.root.0, cur.0), *self == *old(self), path_for_key(old(pager), path@, key@),
 //@|     forall|l: u64, h: nat| reaches(old(pager), cur.0, key@, l, h) ==> #[trigger] reaches(old(pager), self.root.0, key@, l, h + depth),
 //@|     visits(old(pager), self.root.0, key@, cur.0, depth),
 //@|     forall|k: int| 0 <= k < path@.len() ==> visits(old(pager), self.root.0, key@, (#[trigger] path@[k]).page.0, depth),
@@ -890,6 +1044,9 @@ impl BTree {
 //@proof before 1 "path.push(PathEntry {" raw
 //@| proof {
 //@|     assert(is_lb(int_seps(pg(old(pager), cur.0)), key@, child_pos as int));
+//@|     lemma_path_for_key_push(old(pager), path@, key@, PathEntry { page: cur, child_pos });
+//@|     assert forall|k: int| 0 <= k < path@.len() implies (#[trigger] path@[k]).page.0 != cur.0 by { assert(rank(path@[k].page.0) > rank(cur.0)); }
+//@|     lemma_path_ok_push(old(pager), path@, PathEntry { page: cur, child_pos });
 //@|     assert forall|l: u64, h: nat| reaches(old(pager), child.0, key@, l, h) implies #[trigger] reaches(old(pager), self.root.0, key@, l, h + (depth + 1)) by {
 //@|         lemma_reaches_step(old(pager), cur.0, key@, child_pos as int, l, h);
 //@|         assert(reaches(old(pager), self.root.0, key@, l, (h + 1) + depth));
@@ -918,6 +1075,9 @@ impl BTree {
 //@| assert(eview(right_entries@) =~= cells1.skip(mid as int));
 //@| assert(eview(right_entries@)[0] == (right_entries@[0].0@, right_entries@[0].1));
 //@proof before 1 "self.insert_into_parent(" raw
+//@| let ghost mid_store = *pager;
+//@| let ghost path0 = path@;
+//@| let ghost sep0 = sep_key@;
 //@| proof {
 //@|     let o = old(pager); let l = cur.0; let rr = right_id.0;
 //@|     assert(pg(pager, l) == buf@ && pg(pager, rr) == right_buf@);
@@ -926,12 +1086,202 @@ impl BTree {
 //@|     assert(leaf_split_ok(o, pager, l, rr, pos as int, key@, payload, sep_key@));
 //@|     // the recorded descent is untouched by the leaf split: its pages are internal, allocated pages other than l
 //@|     assert forall|k: int| 0 <= k < path@.len() implies pg(pager, (#[trigger] path@[k]).page.0) == pg(o, path@[k].page.0) && live(pager, path@[k].page.0) by {
+//@|         lemma_path_ok_at(o, path@, k);
 //@|         assert(pg(o, path@[k].page.0)[4] == 1 && pg(o, l)[4] == 0);
 //@|     }
 //@|     lemma_path_frame(o, pager, path@);
+//@|     if path@.len() > 0 { lemma_path_ok_at(o, path@, path@.len() - 1); }
 //@|     assert(path_leads_to(pager, path@, self.root.0, l));
 //@| }
+//@proof before 2 "=return Ok(());"
+//@| let o = old(pager); let l = cur.0; let rr = right_id.0;
+//@| if path0.len() == 0 {
+//@|     assert(l == old(self).root.0);
+//@|     assert(new_root_ok(&mid_store, pager, self.root.0, l, sep0, rr));
+//@|     lemma_root_split(o, &mid_store, pager, l, self.root.0, rr, pos as int, key@, payload, sep0);
+//@|     assert(root_split_ok(o, pager, old(self).root.0, self.root.0, rr, pos as int, key@, payload));
+//@| } else if internal_full(&mid_store, path0.last().page.0, sep0) {
+//@|     assert(pg(&mid_store, path0.last().page.0) == pg(o, path0.last().page.0)) by { assert(path0[path0.len() - 1] == path0.last()); lemma_path_ok_at(o, path0, path0.len() - 1); assert(pg(o, path0.last().page.0)[4] == 1 && pg(o, l)[4] == 0); }
+//@|     assert(internal_full(o, path0.last().page.0, sep0));
+//@| } else {
+//@|     assert(parent_insert_ok(&mid_store, pager, path0.last().page.0, path0.last().child_pos as int, sep0, rr));
+//@|     assert(self.root == old(self).root);
+//@|     lemma_split_insert(o, &mid_store, pager, path0, old(self).root.0, l, rr, pos as int, key@, payload, sep0);
+//@|     assert(split_insert_ok(o, pager, path0, old(self).root.0, l, rr, pos as int, key@, payload));
+//@| }
 //@end
+}
+
+/// inserting a separator at the recorded position moves the lower bound of the key by at most one
+pub proof fn lemma_lb_insert(ks: Seq<Seq<u8>>, key: Seq<u8>, cp: int, sep: Seq<u8>)
+    requires is_lb(ks, key, cp),
+    ensures !lex_lt(sep, key) ==> is_lb(ks.insert(cp, sep), key, cp),
+            lex_lt(sep, key) ==> is_lb(ks.insert(cp, sep), key, cp + 1),
+{
+    let k2 = ks.insert(cp, sep);
+    if !lex_lt(sep, key) {
+        assert forall|j: int| 0 <= j < cp implies lex_lt(#[trigger] k2[j], key) by { assert(k2[j] == ks[j]); }
+        assert forall|j: int| cp <= j < k2.len() implies lex_le(key, #[trigger] k2[j]) by { if j > cp { assert(k2[j] == ks[j - 1]); } }
+    } else {
+        assert forall|j: int| 0 <= j < cp + 1 implies lex_lt(#[trigger] k2[j], key) by { if j < cp { assert(k2[j] == ks[j]); } }
+        assert forall|j: int| cp + 1 <= j < k2.len() implies lex_le(key, #[trigger] k2[j]) by { assert(k2[j] == ks[j - 1]); }
+    }
+}
+/// if every recorded page above index `k` still chooses the recorded child for the key, the descent from the
+/// k-th recorded page follows the rest of the record and continues from its last page `p`
+pub proof fn lemma_reaches_along_path(n: &Pager, path: Seq<PathEntry>, key: Seq<u8>, target: u64, k: int)
+    requires 0 <= k < path.len(),
+        forall|j: int| k <= j < path.len() - 1 ==> pg_kind_ok(pg(n, (#[trigger] path[j]).page.0)) && pg(n, path[j].page.0)[4] == 1
+            && is_lb(int_seps(pg(n, path[j].page.0)), key, path[j].child_pos as int) && int_child(pg(n, path[j].page.0), path[j].child_pos as int) == path[j + 1].page.0,
+        reaches(n, path.last().page.0, key, target, 1),
+    ensures reaches(n, path[k].page.0, key, target, (path.len() - k) as nat),
+    decreases path.len() - k
+{
+    if k == path.len() - 1 { assert(path[k] == path.last()); } else {
+        lemma_reaches_along_path(n, path, key, target, k + 1);
+        lemma_reaches_step(n, path[k].page.0, key, path[k].child_pos as int, target, (path.len() - k - 1) as nat);
+    }
+}
+/// the leaf-level half of the lookup-after-split argument: given which of the two leaves the new descent ends in
+/// (right exactly when the separator, the first key of the right leaf, is below the key), the cursor stands on the new entry
+pub proof fn lemma_cursor_after_leaf_split(n: &Pager, l: u64, r: u64, cells0: Seq<(Seq<u8>, u64)>, pos: int, key: Seq<u8>, payload: u64, c_leaf: u64, c_slot: int, l0: u64)
+    requires keys_sorted(cells0), 0 <= pos <= cells0.len(),
+        forall|j: int| 0 <= j < pos ==> lex_lt(#[trigger] cells0[j].0, key),
+        forall|j: int| pos <= j < cells0.len() ==> lex_le(key, #[trigger] cells0[j].0),
+        leaf_wf(pg(n, l)), leaf_wf(pg(n, r)), leaf_cells(pg(n, l)) + leaf_cells(pg(n, r)) == cells0.insert(pos, (key, payload)),
+        leaf_cells(pg(n, r)).len() >= 1, sib(pg(n, l)) == r, r != 0, pg_count(pg(n, l)) > 0,
+        l0 == (if lex_lt(leaf_cells(pg(n, r))[0].0, key) { r } else { l }),
+        lb_pos(leaf_keys(pg(n, l0)), key) < pg_count(pg(n, l0)) ==> c_leaf == l0 && c_slot == lb_pos(leaf_keys(pg(n, l0)), key),
+        lb_pos(leaf_keys(pg(n, l0)), key) >= pg_count(pg(n, l0)) && pg_count(pg(n, l0)) > 0 && sib(pg(n, l0)) != 0 && pg_count(pg(n, sib(pg(n, l0)))) > 0
+            ==> c_leaf == sib(pg(n, l0)) && c_slot == 0,
+    ensures (c_leaf == l || c_leaf == r), 0 <= c_slot < pg_count(pg(n, c_leaf)), leaf_cells(pg(n, c_leaf))[c_slot] == (key, payload),
+{
+    let cells1 = cells0.insert(pos, (key, payload));
+    let cl = leaf_cells(pg(n, l)); let cr = leaf_cells(pg(n, r));
+    let mid = cl.len() as int;
+    lemma_insert_at_lower_bound(cells0, pos, key, payload);
+    assert(cl =~= cells1.take(mid)) by { assert forall|j: int| 0 <= j < mid implies cl[j] == cells1.take(mid)[j] by { assert((cl + cr)[j] == cl[j]); } }
+    assert(cr =~= cells1.skip(mid)) by { assert forall|j: int| 0 <= j < cr.len() implies cr[j] == cells1.skip(mid)[j] by { assert((cl + cr)[mid + j] == cr[j]); } }
+    assert(cr[0].0 == cells1[mid].0);
+    let ks = leaf_keys(pg(n, l0));
+    if pos < mid {
+        assert(lex_le(key, cells1[mid].0)) by { assert(lex_le(cells1[pos].0, cells1[mid].0)); }
+        assert(is_lb(ks, key, pos)) by {
+            assert forall|j: int| 0 <= j < pos implies lex_lt(#[trigger] ks[j], key) by { assert(ks[j] == cl[j].0); assert(lex_lt(cells1[j].0, key)); }
+            assert forall|j: int| pos <= j < ks.len() implies lex_le(key, #[trigger] ks[j]) by { assert(ks[j] == cl[j].0); assert(lex_le(key, cells1[j].0)); }
+        }
+        lemma_lb_unique(ks, key, pos, lb_pos(ks, key));
+    } else if pos == mid {
+        lemma_lex_irrefl(key);
+        assert(is_lb(ks, key, mid)) by {
+            assert forall|j: int| 0 <= j < mid implies lex_lt(#[trigger] ks[j], key) by { assert(ks[j] == cl[j].0); assert(lex_lt(cells1[j].0, key)); }
+        }
+        lemma_lb_unique(ks, key, mid, lb_pos(ks, key));
+        assert(cr[0] == cells1[mid]);
+    } else {
+        assert(lex_lt(cells1[mid].0, key));
+        assert(is_lb(ks, key, pos - mid)) by {
+            assert forall|j: int| 0 <= j < pos - mid implies lex_lt(#[trigger] ks[j], key) by { assert(ks[j] == cr[j].0); assert(lex_lt(cells1[mid + j].0, key)); }
+            assert forall|j: int| pos - mid <= j < ks.len() implies lex_le(key, #[trigger] ks[j]) by { assert(ks[j] == cr[j].0); assert(lex_le(key, cells1[mid + j].0)); }
+        }
+        lemma_lb_unique(ks, key, pos - mid, lb_pos(ks, key));
+        assert(cr[pos - mid] == cells1[pos]);
+    }
+}
+/// C26.tree.lookup_after_split — the property's second sentence for an insert that split a leaf whose parent had room,
+/// as a lemma whose hypotheses are the postconditions of BTree::insert (split_insert_ok) and of BTree::cursor_lower_bound
+/// on the new store: the cursor a lookup of the same key starts from stands on the entry just inserted, whether it went
+/// to the left half, to the first slot of the new right leaf (reached through the sibling link) or further into it.
+/// (Left half not empty.)
+pub proof fn lemma_lookup_after_split(o: &Pager, n: &Pager, path: Seq<PathEntry>, root: u64, l: u64, r: u64, pos: int, key: Seq<u8>, payload: u64,
+                                      c_leaf: u64, c_slot: int, l0: u64, h0: nat)
+    requires
+        split_insert_ok(o, n, path, root, l, r, pos, key, payload), pg_count(pg(n, l)) > 0,
+        // postcondition of cursor_lower_bound on the new store
+        reaches(n, root, key, l0, h0), leaf_wf(pg(n, l0)),
+        lb_pos(leaf_keys(pg(n, l0)), key) < pg_count(pg(n, l0)) ==> c_leaf == l0 && c_slot == lb_pos(leaf_keys(pg(n, l0)), key),
+        lb_pos(leaf_keys(pg(n, l0)), key) >= pg_count(pg(n, l0)) && pg_count(pg(n, l0)) > 0 && sib(pg(n, l0)) != 0 && pg_count(pg(n, sib(pg(n, l0)))) > 0
+            ==> c_leaf == sib(pg(n, l0)) && c_slot == 0,
+    ensures (c_leaf == l || c_leaf == r), 0 <= c_slot < pg_count(pg(n, c_leaf)), leaf_cells(pg(n, c_leaf))[c_slot] == (key, payload),
+{
+    lemma_descent_after_split(o, n, path, root, l, r, pos, key, payload);
+    let big_l = if lex_lt(leaf_cells(pg(n, r))[0].0, key) { r } else { l };
+    lemma_reaches_unique(n, root, key, big_l, path.len() as nat, l0, h0);
+    lemma_cursor_after_leaf_split(n, l, r, leaf_cells(pg(o, l)), pos, key, payload, c_leaf, c_slot, l0);
+}
+/// on the store after the split the descent for the key follows the recorded pages down to the parent and goes to the
+/// right leaf exactly when the new separator is below the key
+pub proof fn lemma_descent_after_split(o: &Pager, n: &Pager, path: Seq<PathEntry>, root: u64, l: u64, r: u64, pos: int, key: Seq<u8>, payload: u64)
+    requires split_insert_ok(o, n, path, root, l, r, pos, key, payload),
+    ensures reaches(n, root, key, if lex_lt(leaf_cells(pg(n, r))[0].0, key) { r } else { l }, path.len() as nat),
+{
+    let pe = path.last(); let p = pe.page.0; let cp = pe.child_pos as int;
+    assert(path[path.len() - 1] == pe);
+    lemma_path_ok_at(o, path, path.len() - 1);
+    assert(is_lb(int_seps(pg(o, p)), key, cp)) by { reveal(path_for_key); }
+    let sep = leaf_cells(pg(n, r))[0].0;
+    let go_right = lex_lt(sep, key);
+    let big_l = if go_right { r } else { l };
+    let cpn = if go_right { cp + 1 } else { cp };
+    lemma_lb_insert(int_seps(pg(o, p)), key, cp, sep);
+    assert(int_child(pg(n, p), cpn) == big_l) by {
+        assert(all_children(pg(n, p))[cpn] == int_child(pg(n, p), cpn));
+        assert(all_children(pg(o, p))[cp] == int_child(pg(o, p), cp));
+    }
+    assert(reaches(n, big_l, key, big_l, 0nat));
+    lemma_reaches_step(n, p, key, cpn, big_l, 0nat);
+    assert forall|j: int| 0 <= j < path.len() - 1 implies pg_kind_ok(pg(n, (#[trigger] path[j]).page.0)) && pg(n, path[j].page.0)[4] == 1
+            && is_lb(int_seps(pg(n, path[j].page.0)), key, path[j].child_pos as int) && int_child(pg(n, path[j].page.0), path[j].child_pos as int) == path[j + 1].page.0 by {
+        let y = path[j].page.0;
+        lemma_path_ok_at(o, path, j);
+        assert(y != p);
+        assert(y != l) by { assert(pg(o, y)[4] == 1 && pg(o, l)[4] == 0); }
+        assert(pg(n, y) == pg(o, y));
+        assert(is_lb(int_seps(pg(o, y)), key, path[j].child_pos as int)) by { reveal(path_for_key); }
+    }
+    lemma_reaches_along_path(n, path, key, big_l, 0);
+}
+/// C26.tree.insert.root_split — what an insert did that split the root while it was a leaf: the two halves as in a
+/// leaf split, and a new root (a page that was free) whose only separator is the first key of the right half
+pub open spec fn root_split_ok(o: &Pager, n: &Pager, l: u64, new_root: u64, r: u64, pos: int, key: Seq<u8>, payload: u64) -> bool {
+    leaf_wf(pg(o, l)) && keys_sorted(leaf_cells(pg(o, l))) && 0 <= pos <= pg_count(pg(o, l)) && live(o, l) && !live(o, r) && !live(o, new_root) && r != 0
+    && (forall|j: int| 0 <= j < pos ==> lex_lt(#[trigger] leaf_cells(pg(o, l))[j].0, key))
+    && (forall|j: int| pos <= j < pg_count(pg(o, l)) ==> lex_le(key, #[trigger] leaf_cells(pg(o, l))[j].0))
+    && leaf_wf(pg(n, l)) && leaf_wf(pg(n, r))
+    && leaf_cells(pg(n, l)) + leaf_cells(pg(n, r)) == leaf_cells(pg(o, l)).insert(pos, (key, payload))
+    && leaf_cells(pg(n, r)).len() >= 1 && sib(pg(n, l)) == r
+    && internal_wf(pg(n, new_root)) && int_seps(pg(n, new_root)) == seq![leaf_cells(pg(n, r))[0].0] && all_children(pg(n, new_root)) == seq![l, r]
+    && (forall|x: u64| live(o, x) && x != l ==> #[trigger] pg(n, x) == pg(o, x))
+}
+pub proof fn lemma_root_split(o: &Pager, m: &Pager, n: &Pager, l: u64, new_root: u64, r: u64, pos: int, key: Seq<u8>, payload: u64, sep: Seq<u8>)
+    requires leaf_split_ok(o, m, l, r, pos, key, payload, sep), keys_sorted(leaf_cells(pg(o, l))), new_root_ok(m, n, new_root, l, sep, r), live(m, l), live(m, r),
+        forall|x: u64| live(o, x) ==> live(m, x),
+    ensures root_split_ok(o, n, l, new_root, r, pos, key, payload),
+{
+    assert(pg(n, l) == pg(m, l) && pg(n, r) == pg(m, r));
+}
+/// C26.tree.lookup_after_root_split — the same statement for the first split of a tree: the root was a full leaf
+pub proof fn lemma_lookup_after_root_split(o: &Pager, n: &Pager, l: u64, new_root: u64, r: u64, pos: int, key: Seq<u8>, payload: u64,
+                                           c_leaf: u64, c_slot: int, l0: u64, h0: nat)
+    requires
+        root_split_ok(o, n, l, new_root, r, pos, key, payload), pg_count(pg(n, l)) > 0,
+        reaches(n, new_root, key, l0, h0), leaf_wf(pg(n, l0)),
+        lb_pos(leaf_keys(pg(n, l0)), key) < pg_count(pg(n, l0)) ==> c_leaf == l0 && c_slot == lb_pos(leaf_keys(pg(n, l0)), key),
+        lb_pos(leaf_keys(pg(n, l0)), key) >= pg_count(pg(n, l0)) && pg_count(pg(n, l0)) > 0 && sib(pg(n, l0)) != 0 && pg_count(pg(n, sib(pg(n, l0)))) > 0
+            ==> c_leaf == sib(pg(n, l0)) && c_slot == 0,
+    ensures (c_leaf == l || c_leaf == r), 0 <= c_slot < pg_count(pg(n, c_leaf)), leaf_cells(pg(n, c_leaf))[c_slot] == (key, payload),
+{
+    let sep = leaf_cells(pg(n, r))[0].0;
+    let go_right = lex_lt(sep, key);
+    let big_l = if go_right { r } else { l };
+    let cpn: int = if go_right { 1 } else { 0 };
+    let ks = int_seps(pg(n, new_root));
+    assert(is_lb(ks, key, cpn));
+    assert(int_child(pg(n, new_root), cpn) == big_l) by { assert(all_children(pg(n, new_root))[cpn] == int_child(pg(n, new_root), cpn)); }
+    assert(reaches(n, big_l, key, big_l, 0nat));
+    lemma_reaches_step(n, new_root, key, cpn, big_l, 0nat);
+    lemma_reaches_unique(n, new_root, key, big_l, 1nat, l0, h0);
+    lemma_cursor_after_leaf_split(n, l, r, leaf_cells(pg(o, l)), pos, key, payload, c_leaf, c_slot, l0);
 }
 
 /// C26.tree.insert.keeps_page_invariant — an insert that did not split leaves every index page well formed and in
@@ -1009,10 +1359,12 @@ pub proof fn lemma_lookup_after_insert(o: &Pager, n: &Pager, root: u64, key: Seq
     lemma_lb_unique(ks, key, i, lb_pos(ks, key));
 }
 
+//@canary|pub proof fn canary_split_insert_ok(o: &Pager, n: &Pager, path: Seq<PathEntry>, root: u64, l: u64, r: u64, k: Seq<u8>) requires split_insert_ok(o, n, path, root, l, r, 1, k, 7), r != 0, pg_count(pg(n, l)) == 2, pg_count(pg(o, l)) == 3, path.len() == 2 ensures false {}
+//@canary|pub proof fn canary_lookup_after_split_concl(o: &Pager, n: &Pager, path: Seq<PathEntry>, root: u64, l: u64, r: u64, k: Seq<u8>, l0: u64, h0: nat) requires split_insert_ok(o, n, path, root, l, r, 2, k, 7), r != 0, pg_count(pg(n, l)) == 2, reaches(n, root, k, l0, h0), leaf_wf(pg(n, l0)) ensures l0 == r {}
 //@canary|pub proof fn canary_reaches(p: &Pager, root: u64, k: Seq<u8>, l: u64) requires tree_pages_ok(p), reaches(p, root, k, l, 2), root != l, pg_kind_ok(pg(p, root)), pg(p, root)[4] == 1, pg_count(pg(p, root)) == 3 ensures false {}
 //@canary|pub proof fn canary_lookup_hyp(o: &Pager, n: &Pager, root: u64, k: Seq<u8>, l: u64) requires tree_pages_ok(o), inserted_at(o, n, l, 1, k, 5), reaches(o, root, k, l, 1), root != l, pg_count(pg(o, l)) == 2 ensures false {}
 //@canary|pub proof fn canary_ranked(p: &Pager, rank: spec_fn(u64) -> nat, a: u64) requires tree_pages_ok(p), ranked(p, rank), pg_kind_ok(pg(p, a)), pg(p, a)[4] == 1, pg_count(pg(p, a)) == 2, int_child(pg(p, a), 1) != int_child(pg(p, a), 2) ensures false {}
-//@canary|pub proof fn canary_path_ok(p: &Pager, path: Seq<PathEntry>) requires path_ok(p, path), path.len() == 2, path[0].child_pos == 1, path[1].child_pos == 0 ensures false {}
+//@canary|pub proof fn canary_path_ok(p: &Pager, path: Seq<PathEntry>) requires path_ok(p, path), path.len() == 2, path[0].child_pos == 1, path[1].child_pos == 0 ensures false { reveal(path_ok); }
 //@canary|pub proof fn canary_split_point_pre(e: Seq<(Seq<u8>, u64)>) requires e.len() == 3, ents_sz(e) <= usize::MAX, cut_fits(e, 1), !cut_fits(e, 2) ensures false {}
 //@canary|pub proof fn canary_leaf_split_ok(o: &Pager, n: &Pager, l: u64, r: u64, k: Seq<u8>, s: Seq<u8>) requires leaf_split_ok(o, n, l, r, 1, k, 7, s), pg_count(pg(o, l)) == 3, leaf_cells(pg(n, l)).len() == 2 ensures false {}
 //@canary|pub proof fn canary_internal_split_ok(o: &Pager, n: &Pager, p: u64, r2: u64, s: Seq<u8>, pr: Seq<u8>) requires internal_split_ok(o, n, p, r2, 1, s, 9, pr), pg_count(pg(o, p)) == 4, pg_count(pg(n, p)) == 2 ensures false {}
